@@ -211,7 +211,7 @@ def main(tier, seed):
     fam += scenarios.thrown_value_scenarios() + scenarios.handler_intact_scenarios()[::2] + scenarios.loop_state_scenarios()[::3] + scenarios.range_cache_scenarios() + scenarios.fiber_lifetime_scenarios()
     n = 300 if tier == "quick" else 3000
     fam += scenarios.fiber_scenarios(random.Random(seed), n, nfib=3) + scenarios.class_scenarios(random.Random(seed), n)
-    fam += scenarios.iteration_scenarios(random.Random(seed), n) + scenarios.hashmap_scenarios(random.Random(seed), n)
+    fam += scenarios.iteration_scenarios(random.Random(seed), n, exhaustive=False) + scenarios.hashmap_scenarios(random.Random(seed), n)
     # several runs on ONE interpreter (what a run that died leaves behind - in the fiber it died in and in the fibers that were calling
     # it - is reachable from later runs only through the closures and fibers stored in globals), module reruns included
     import mrun
@@ -292,7 +292,7 @@ def main(tier, seed):
     import profcheck
     fam7 = scenarios.fiber_lifetime_scenarios() + scenarios.thrown_value_scenarios() + scenarios.handler_intact_scenarios()[::3]
     fam7 += scenarios.fiber_scenarios(random.Random(seed + 1), n, nfib=3) + scenarios.class_scenarios(random.Random(seed + 1), n)
-    fam7 += scenarios.iteration_scenarios(random.Random(seed + 1), n) + scenarios.hashmap_scenarios(random.Random(seed + 1), n, exhaustive_pairs=False)
+    fam7 += scenarios.iteration_scenarios(random.Random(seed + 1), n, exhaustive=False) + scenarios.hashmap_scenarios(random.Random(seed + 1), n, exhaustive_pairs=False)
     fam7 += scenarios.capture_order_scenarios() + scenarios.fiber_switch_context_scenarios()
     nlive = profcheck.run_scenarios(rep, "reachableset", fam7, [("dev", dev), ("release", rel)], PROP, trace=False)
     nprog += nlive
